@@ -62,6 +62,15 @@ def plan_for(pid, tier, seed):
         return dict(level="model_checking", mc=[], traces=[], special=[borrow.run_c05],
                     assumptions=["rustc's verdict (the executor for compile-time properties)",
                                  "Borrow.tla's statement language: the family of programs of <= 3 statements over <= 2 tokens of every kind"])
+    if pid == "C20":
+        jobs = []
+        for prof in ("dbg", "rel"):
+            jobs += tj("multi_driver", "multi", tier, prof, seed, 2 if tier == "quick" else 4, ["ArenaMonitor", "ArenaTrace"],
+                       monitors_sync=["ThreadsTrace"])
+        return dict(level="model_checking", traces=jobs, special=[],
+                    mc=[dict(module="Threads", cfg="Threads", workers=8, timeout=900)],
+                    assumptions=["TLC", "footer-store hook (__verif::footer_store) sees every store into a chunk footer",
+                                 "data races only on crate-level shared state (chunk footers, the static empty chunk); reads are not hooked"])
     if pid == "C14":
         return dict(level="model_checking", mc=[], traces=str_corpus(tier, seed, ["sops", "decoders", "srandom"]), special=[],
                     assumptions=["TLC and the Json/IOUtils community modules",
